@@ -382,4 +382,39 @@ def rule_f(ctx: Ctx) -> None:
                 'self._unbind_prefix(k, …); bulk updates only restore a snapshot into the cleared map.')
 
 
-RULES = [rule_a, rule_b, rule_c, rule_d, rule_e, rule_f]
+def rule_g(ctx: Ctx) -> None:
+    """The key of a child is its tag mapped with the prefixes in scope *for that child*: in XsdGroup.raw_decode the mapped name is
+    computed anew for every child, after the child's namespace context was set (a name kept from the previous sibling was mapped
+    in the previous sibling's scope)."""
+    rule = 'C17.g'
+    from .common import reach_cut
+    f = ctx.idx.func('xmlschema.validators.groups.XsdGroup.raw_decode')
+    ctx.analysed(f.qualname)
+    g = cfg_of(ctx, f)
+    loops = [n for n in g.nodes if n.kind == 'for' and text(n.ast.iter) in ('enumerate(obj)', 'obj')]
+    if len(loops) != 1:
+        raise AnalysisError(f'{rule}: expected one loop over the children in {f.qualname}')
+    head = loops[0]
+    maps_ = [n for n in g.nodes if n.kind == 'stmt' and isinstance(n.ast, ast.Assign) and isinstance(n.ast.value, ast.Call)
+             and isinstance(n.ast.value.func, ast.Attribute) and n.ast.value.func.attr == 'map_qname' and 'child.tag' in text(n.ast.value)]
+    ctx.floor(rule, 'mappings of the child tag in XsdGroup.raw_decode', len(maps_), 1)
+    var = text(maps_[0].ast.targets[0]) if maps_ else 'name'
+    uses = [n for n in g.stmt_nodes() if n not in maps_ and any(isinstance(x, ast.Name) and x.id == var and isinstance(x.ctx, ast.Load) for e in n.exprs for x in ast.walk(e))
+            and any(any(n.ast is y for y in ast.walk(b)) for b in head.ast.body)]
+    starts = [m for m, lab in g.succ[head] if lab == 'T']
+    stale = reach_cut(g, starts, set(), avoid=set(maps_) | {head}, kinds='nTF')
+    bad = [u for u in uses if u in stale]
+    ok = bool(uses) and not bad
+    ctx.ob(rule, f'XsdGroup.raw_decode: every use of `{var}` in an iteration follows the mapping of this child\'s tag', f.loc(maps_[0].ast) if maps_ else f.loc(), ok,
+           '' if ok else f'line {bad[0].lineno} can use `{var}` computed for an earlier sibling: when that sibling redeclared the prefix (or the default namespace) on itself, '
+           'the next sibling of the same tag is stored under a key that its own scope resolves to another namespace', key='XsdGroup.raw_decode|name-per-child')
+    sx = [n for n, c in call_nodes(g, lambda c: isinstance(c.func, ast.Attribute) and c.func.attr == 'set_xmlns_context' and c.args and text(c.args[0]) == 'child')]
+    dom = g.dominators(kinds='nTF')
+    ok = bool(sx) and bool(maps_) and all(any(s in dom[m] for s in sx) for m in maps_)
+    ctx.ob(rule, 'XsdGroup.raw_decode: the tag is mapped after the namespace context of the child was set', f.loc(sx[0].ast) if sx else f.loc(), ok, '',
+           key='XsdGroup.raw_decode|map-after-context')
+    ctx.explain('C17.g: within one iteration over the children no use of the mapped name is reachable without passing '
+                '`… = converter.map_qname(child.tag)`, which is dominated by set_xmlns_context(child, …).')
+
+
+RULES = [rule_a, rule_b, rule_c, rule_d, rule_e, rule_f, rule_g]
